@@ -352,11 +352,25 @@ impl<'a, C: Ctx> Shuffler<'a, C> {
         #[allow(non_snake_case)]
         let N = es.len();
 
+        // The statement and the proof are untrusted input. A proof is only
+        // well formed if it carries exactly one permutation commitment, one
+        // chain commitment, one chain proof-commitment and one pair of
+        // responses per ciphertext; anything else is rejected (not a panic,
+        // and not a partial check over the entries that happen to be there).
+        if N == 0
+            || e_primes.len() != N
+            || self.generators.len() != N + 1
+            || proof.cs.0.len() != N
+            || proof.c_hats.0.len() != N
+            || proof.t.t_hats.0.len() != N
+            || proof.s.s_hats.0.len() != N
+            || proof.s.s_primes.0.len() != N
+        {
+            return Ok(false);
+        }
+
         let h_generators = &self.generators[1..];
         let h_initial = &self.generators[0];
-
-        assert!(N == e_primes.len());
-        assert!(N == h_generators.len());
 
         // let gmod = ctx.modulus();
 
